@@ -80,8 +80,14 @@ func (k Keeper) ChangeExecutor(ctx context.Context, plan types.ExecutorChangePla
 		return err
 	}
 	params.BridgeExecutors = plan.NextExecutors
-	if err := k.SetParams(ctx, params); err != nil {
+
+	// only the executor list changes here. SetParams would also enforce
+	// MaxValidators against the number of stored validators, which at this point
+	// still includes the validators zeroed above (they are purged later in this
+	// same end blocker); with a full validator set that check made the plan
+	// height fail block processing.
+	if err := params.Validate(k.authKeeper.AddressCodec()); err != nil {
 		return err
 	}
-	return nil
+	return k.Params.Set(ctx, params)
 }
